@@ -838,6 +838,8 @@ func (ts *TermStore) SLen(a *Term) *Term {
 			return ts.Int(36)
 		case "kyber.scalar.enc", "scrypt32":
 			return ts.Int(32) // a marshalled BLS12-381 scalar; a 32-byte derived key
+		case "bv2str":
+			return ts.Int(int64(a.args[0].sort.W / 8))
 		case "schnorr.R":
 			return ts.Int(48) // a marshalled G1 point
 		case "schnorr.s":
